@@ -130,6 +130,18 @@ theorem writeBit_ok (v : Bool) (s : BitString) (hi : Inv s) (h : s.len < s.cap) 
     rw [e, h4, List.drop_replicate, Nat.sub_sub]
   · simp
 
+/-- the executable specification of `WriteUnary` is the bit-list write of `n` ones and a zero -/
+theorem writeUnary_spec_eq (n : Nat) : Ideal.writeUnary n = Ideal.write (List.replicate n true ++ [false]) := by
+  funext t
+  unfold Ideal.writeUnary Ideal.write
+  simp only [List.length_append, List.length_replicate, List.length_singleton]
+  by_cases h : t.bits.length + (n + 1) ≤ t.cap
+  · simp only [h, if_true]
+  · simp only [h, if_false]
+    congr 3
+    rw [List.take_append_of_le_length (by simp; omega), List.take_replicate]
+    congr 1; omega
+
 /-! ### writing a list of bits -/
 
 /-- post-state of writing `l`: the prefix that fits is appended, everything else is unchanged -/
